@@ -651,7 +651,10 @@ def num_eval(x, env):
     """Exact-as-possible numeric value of a (sympy or Python) value under an assignment of the symbols; complex."""
     import sympy
     x = sympy.sympify(x)
-    v = x.subs({sympy.Symbol(k): sympy.Rational(f.numerator, f.denominator) for k, f in env.items()}, simultaneous=True)
+    sub = {sympy.Symbol(k): sympy.Rational(f.numerator, f.denominator) for k, f in env.items()}
+    for s in x.free_symbols:                     # symbols the assignment does not mention get a fixed value
+        sub.setdefault(s, sympy.Rational(3, 4))
+    v = x.subs(sub, simultaneous=True)
     return complex(sympy.N(v, 30))
 
 
@@ -859,6 +862,741 @@ def resolver_stream(ctx, cirq, n):
                               dict(kind='value_of_seq', entries=[[k, repr_value(x)] for k, x in entries], exprs=[sympy_srepr(r[0]) for r in rows[:qi + 1]]))
 
 
+# ------------------------------------------------------------------------------------------------
+# Differential streams: wider expression classes, gates, circuits, simulation, flattening
+# (reference = numbers substituted by sympy, then the same Cirq constructor / simulator)
+# ------------------------------------------------------------------------------------------------
+def gen_fexpr(rng, depth, syms):
+    """Real- or complex-valued expressions of the kinds users write as gate parameters (fractional powers, division,
+    trigonometric functions, pi) — compared with sympy substitution only, no Coq model."""
+    import sympy
+    if depth <= 0 or rng.random() < 0.2:
+        r = rng.random()
+        if r < 0.6 and syms:
+            return sympy.Symbol(rng.choice(syms))
+        if r < 0.75:
+            return sympy.Integer(rng.choice([-2, -1, 1, 2, 3]))
+        if r < 0.85:
+            return sympy.Rational(rng.choice([-3, -1, 1, 3, 5]), rng.choice([2, 3, 4]))
+        if r < 0.93:
+            return sympy.Float(round(rng.uniform(-2, 2), 3))
+        return sympy.pi
+    sub = lambda: gen_fexpr(rng, depth - 1, syms)
+    kind = rng.choice(['add', 'add', 'mul', 'mul', 'pow', 'pow', 'div', 'fn'])
+    if kind == 'add':
+        return sympy.Add(*[sub() for _ in range(rng.choice([2, 3]))])
+    if kind == 'mul':
+        return sympy.Mul(*[sub() for _ in range(rng.choice([2, 3]))])
+    if kind == 'pow':
+        return sympy.Pow(sub(), rng.choice([2, 3, sympy.Rational(1, 2), sympy.Rational(1, 3), sympy.Rational(3, 2), -1, sympy.Float(0.5), sympy.Float(1.5)]))
+    if kind == 'div':
+        return sub() / rng.choice([2, 3, sympy.pi, 4])
+    return rng.choice([sympy.sin, sympy.cos, sympy.exp, sympy.Abs])(sub())
+
+
+def judge_skip_undefined(cirq, entries, e, envs):
+    """judge_value_of, except that inputs on which ordinary algebra itself is undefined (division by zero ...) or huge are skipped."""
+    import sympy
+    try:
+        want = ref_resolve(entries, e)
+        if want is not None:
+            if want.has(sympy.zoo) or want.has(sympy.nan) or want.has(sympy.oo):
+                return 'skip'
+            for env in envs:
+                v = num_eval(want, env)
+                if not (abs(v) < 1e6) or v != v:
+                    return 'skip'
+    except Exception:
+        return 'skip'
+    return judge_value_of(cirq, entries, e, True, envs)
+
+
+def float_stream(ctx, cirq, n):
+    """value_of against sympy substitution on expressions outside the exact model (spec-level oracle applied directly)."""
+    import sympy
+    rng = ctx.rng
+    x = sympy.Symbol('x')
+    corner = [([('x', -1)], sympy.sqrt(x)), ([('x', -1.5)], sympy.sqrt(x)), ([('x', -8.0)], x ** sympy.Rational(1, 3)),
+              ([('x', 4.0)], sympy.sqrt(x)), ([('x', 1j)], x * x), ([('x', 0.5)], sympy.exp(sympy.I * sympy.pi * x)),
+              ([('y', 1)], 2 ** x), ([('x', 2)], x ** sympy.Symbol('y')), ([('x', 0.25)], sympy.sin(sympy.pi * x) / 2)]
+    skipped = 0
+    for i in range(n):
+        if i < len(corner):
+            entries, e = corner[i]
+        else:
+            syms = rng.sample(GEN_SYMS, rng.choice([1, 2, 3]))
+            entries = []
+            for j, s in enumerate(syms):
+                r = rng.random()
+                if r < 0.75 or j == len(syms) - 1:
+                    entries.append((s, rng.choice([round(rng.uniform(-2, 2), 3), rng.randint(-3, 3), float(rng.randint(-2, 2)), 0.5, -0.5])))
+                else:
+                    entries.append((s, gen_fexpr(rng, 1, syms[j + 1:])))
+            if rng.random() < 0.3:
+                entries = entries[:-1]                       # leave one symbol unresolved
+            e = gen_fexpr(rng, rng.choice([1, 2, 2, 3]), syms)
+        if not isinstance(e, sympy.Basic) or e.is_Number:
+            continue
+        envs = [{s: Fraction(rng.randint(1, 7), 4) for s in GEN_SYMS + ['x', 'y']}]
+        v = judge_skip_undefined(cirq, entries, e, envs)
+        if v == 'skip':
+            skipped += 1
+            continue
+        ctx.count('value_of_float', [str(entries), sympy.srepr(e)], len(e.free_symbols & {sympy.Symbol(k) for k, _ in entries}) > 0 and len(e.args) > 0,
+                  sample=dict(resolver=str(dict(entries)), expr=str(e), verdict=str(v)))
+        if v is not None:
+            spec_value_of(ctx, cirq, entries, e, True, envs, 'value_of_float')
+    ctx.cov.setdefault('distribution', {})['value_of_float'] = dict(skipped_undefined_by_algebra=skipped)
+
+
+# ---- gates and circuits -----------------------------------------------------------------------------
+from .. import gates as _gates
+
+ONE_Q = ['XPow', 'YPow', 'ZPow', 'HPow', 'Rx', 'Ry', 'Rz', 'PhasedX', 'PhasedXZ']
+TWO_Q = ['CZPow', 'CXPow', 'SwapPow', 'ISwapPow', 'XXPow', 'YYPow', 'ZZPow', 'FSim', 'PhasedFSim', 'PhasedISwap', 'Givens', 'MS', 'PI', 'Diagonal2']
+THREE_Q = ['CCZPow', 'CCXPow', 'Diagonal3']
+OTHER = ['X4Pow', 'Z4Pow', 'PhaseGrad', 'GlobalPhase']
+
+
+def sym_params(fam, p):
+    """Names of the parameters of a family that accept expressions."""
+    if fam.startswith('Diagonal'):
+        return [('angles', i) for i in range(len(p['angles']))]
+    return [k for k, v in p.items() if isinstance(v, float) and k != 's']
+
+
+def draw_gate(rng, fam):
+    if fam.startswith('Diagonal'):
+        nq = int(fam[-1])
+        return _gates.G('Diagonal', dict(angles=[_gates.draw_angle(rng) for _ in range(2 ** nq)], fixed=rng.random() < 0.5), (2,) * nq)
+    if fam == 'PhaseGrad':
+        nq = rng.choice([1, 2])
+        return _gates.G('PhaseGrad', dict(e=_gates.draw_exp(rng)), (2,) * nq)
+    g = _gates.draw(rng, fam)
+    g.p = {k: (float(v) if isinstance(v, (int, float)) and not isinstance(v, bool) and k not in ('p0', 'p1', 'i0', 'i1') else v) for k, v in g.p.items()}
+    return g
+
+
+def with_params(g, assign):
+    """Copy of the gate record with the listed parameters replaced (values may be sympy expressions or floats)."""
+    p = dict(g.p)
+    if 'angles' in p:
+        p['angles'] = list(p['angles'])
+    for k, v in assign.items():
+        if isinstance(k, tuple):
+            p['angles'][k[1]] = v
+        else:
+            p[k] = v
+    return _gates.G(g.fam, p, g.shape)
+
+
+def build_gate(cirq, g):
+    import sympy
+    if g.fam == 'GlobalPhase':      # the one complex-valued gate parameter: coefficient = exp(i * rads)
+        r = g.p['rads']
+        return cirq.GlobalPhaseGate(sympy.exp(sympy.I * r) if isinstance(r, sympy.Basic) else complex(math.cos(r), math.sin(r)))
+    return g.cirq_gate(cirq)
+
+
+def gen_pexpr(rng, depth, syms):
+    """Real-valued, everywhere-defined parameter expressions."""
+    import sympy
+    if depth <= 0 or rng.random() < 0.25:
+        r = rng.random()
+        if r < 0.7:
+            return sympy.Symbol(rng.choice(syms))
+        if r < 0.85:
+            return sympy.Rational(rng.randint(-5, 5), rng.choice([1, 2, 4]))
+        return sympy.Float(float(dyadic(rng)) / 4)
+    sub = lambda: gen_pexpr(rng, depth - 1, syms)
+    kind = rng.choice(['add', 'add', 'mul', 'mul', 'sq', 'div', 'fn', 'trig'])
+    if kind == 'add':
+        return sympy.Add(*[sub() for _ in range(rng.choice([2, 3]))])
+    if kind == 'mul':
+        return sympy.Mul(*[sub() for _ in range(2)])
+    if kind == 'sq':
+        return sympy.Pow(sub(), 2)
+    if kind == 'div':
+        return sub() / rng.choice([2, 4, sympy.pi])
+    if kind == 'fn':
+        f = rng.choice(['Abs', 'Max', 'Min'])
+        return sympy.Abs(sub()) if f == 'Abs' else getattr(sympy, f)(sub(), sub())
+    return rng.choice([sympy.sin, sympy.cos])(sub())
+
+
+def gen_full_resolver(rng, syms):
+    """Every symbol ends up a number, through chains: values are numbers, aliases, or expressions of later symbols."""
+    import sympy
+    order = list(syms)
+    rng.shuffle(order)
+    entries = []
+    for i, s in enumerate(order):
+        later = order[i + 1:]
+        r = rng.random()
+        if r < 0.55 or not later:
+            v = rng.choice([round(rng.uniform(-2, 2), 3), float(dyadic(rng)) / 2, rng.randint(-2, 2), 0.5, 0.25, 1.0])
+        elif r < 0.7:
+            v = rng.choice(later) if rng.random() < 0.5 else sympy.Symbol(rng.choice(later))
+        else:
+            v = gen_pexpr(rng, rng.choice([1, 2]), later)
+        entries.append((s, v))
+    rng.shuffle(entries)
+    return entries
+
+
+def ref_number(entries, e):
+    """The real number ordinary algebra assigns to a parameter expression under the resolver (None if not a finite real)."""
+    import sympy
+    if not isinstance(e, sympy.Basic):
+        return float(e)
+    w = ref_resolve(entries, e)
+    if w is None or w.free_symbols:
+        return None
+    try:
+        c = complex(sympy.N(w, 30))
+    except Exception:
+        return None
+    if abs(c.imag) > 1e-12 or not (abs(c) < 1e4):
+        return None
+    return c.real
+
+
+def gen_param_gate(rng, fam, syms, entries, all_numeric_prob=0.0):
+    """(symbolic gate record, numeric twin record, parameter expressions) or None."""
+    g0 = draw_gate(rng, fam)
+    keys = sym_params(g0.fam, g0.p)
+    chosen = [k for k in keys if rng.random() < 0.7] or keys[:1]
+    if rng.random() < all_numeric_prob:
+        chosen = []
+    sym_assign, num_assign = {}, {}
+    for k in chosen:
+        for _ in range(6):
+            e = gen_pexpr(rng, rng.choice([0, 1, 1, 2, 3]), syms)
+            v = ref_number(entries, e)
+            if v is not None:
+                break
+        else:
+            return None
+        sym_assign[k], num_assign[k] = e, v
+    return with_params(g0, sym_assign), with_params(g0, num_assign), list(sym_assign.values())
+
+
+def safe_str(x):
+    try:
+        return str(x)
+    except Exception:
+        return repr(x)
+
+
+def mats_close(a, b, tol=1e-7):
+    import numpy as np
+    a, b = np.asarray(a), np.asarray(b)
+    return a.shape == b.shape and bool(np.all(np.isfinite(a))) and bool(np.allclose(a, b, atol=tol, rtol=0))
+
+
+def classify_exprs(ctx, cirq, entries, exprs):
+    """If the failure of a gate/circuit is already a failure of value_of on one of its parameter expressions, report that."""
+    import sympy
+    hit = False
+    for e in exprs:
+        if isinstance(e, sympy.Basic) and not e.is_Number:
+            hit = spec_value_of(ctx, cirq, entries, e, True, None, 'gate') or hit
+    return hit
+
+
+def gate_stream(ctx, cirq, n):
+    """resolve_parameters then cirq.unitary  vs  substitute numbers (sympy) then cirq.unitary, gate by gate; plus
+    parameter_names / is_parameterized of the symbolic gate and two-stage resolution."""
+    import sympy
+    rng = ctx.rng
+    fams = ONE_Q + TWO_Q + THREE_Q + OTHER
+    for i in range(n):
+        fam = fams[i % len(fams)]
+        syms = rng.sample(GEN_SYMS, rng.choice([1, 2, 3]))
+        entries = gen_full_resolver(rng, syms)
+        made = gen_param_gate(rng, fam, syms, entries)
+        if made is None:
+            continue
+        gs, gn, exprs = made
+        rep = dict(kind='gate', fam=gs.fam, shape=list(gs.shape), params={str(k): sympy_srepr(v) if isinstance(v, sympy.Basic) else v for k, v in flat_params(gs).items()},
+                   entries=[[k, repr_value(x)] for k, x in entries])
+        try:
+            sg, ng = build_gate(cirq, gs), build_gate(cirq, gn)
+            want = cirq.unitary(ng)
+        except Exception:
+            continue
+        symbolic = any(isinstance(e, sympy.Basic) for e in exprs)
+        ctx.count('gate_unitary', [gs.fam, rep['params'], rep['entries']], symbolic and any(len(getattr(e, 'args', ())) > 0 for e in exprs),
+                  sample=dict(gate=repr(sg), resolver=str(dict(entries)), numeric=repr(ng)))
+        names_want = set().union(*[{s.name for s in e.free_symbols} for e in exprs if isinstance(e, sympy.Basic)]) if exprs else set()
+        if symbolic and (set(cirq.parameter_names(sg)) != names_want or not cirq.is_parameterized(sg)):
+            ctx.violation(f'parameter_names:{gs.fam}', f'parameter_names({sg!r}) = {sorted(cirq.parameter_names(sg))}, its parameters mention {sorted(names_want)}; '
+                          f'is_parameterized = {cirq.is_parameterized(sg)}', rep)
+        res = cirq.ParamResolver(dict(entries))
+        # one shot, and in two stages (first the entries of half of the symbols, then the rest)
+        half = [kv for kv in entries if kv[0] in syms[:max(1, len(syms) // 2)]]
+        rest = [kv for kv in entries if kv not in half]
+        for how, f in (('one-shot', lambda: cirq.resolve_parameters(sg, res)),
+                       ('two-stage', lambda: cirq.resolve_parameters(cirq.resolve_parameters(sg, dict(rest)), dict(half + rest)))):
+            try:
+                r = f()
+                bad = None
+                if cirq.is_parameterized(r):
+                    bad = f'still parameterized: {r!r}'
+                elif not mats_close(cirq.unitary(r), want):
+                    bad = f'unitary of {r!r} differs from unitary of {ng!r}'
+            except Exception as ex:
+                bad = f'raised {type(ex).__name__}: {ex}'[:300]
+            if bad:
+                ctx.mark_broken(f'differential:gate:{gs.fam}', bad)
+                if not classify_exprs(ctx, cirq, entries, exprs):
+                    ctx.violation(f'resolve:gate:{gs.fam}', f'resolve_parameters({sg!r}, {dict(entries)!r}) [{how}] {bad}', rep)
+                break
+
+
+def flat_params(g):
+    out = {}
+    for k, v in g.p.items():
+        if k == 'angles':
+            for i, a in enumerate(v):
+                out[f'angles[{i}]'] = a
+        else:
+            out[k] = v
+    return out
+
+
+# ---- circuits --------------------------------------------------------------------------------------
+def gen_circuit_spec(rng, syms, entries, nq, allow_sub=True, depth=0):
+    """A list of op specs: dict(sym=G, num=G, qs=[...], wrap=None|'tag'|'ctrl'|('sub', inner_specs, reps, local)).
+    Built twice (symbolic / numeric twin) by build_circuit.  `entries` may contain local symbols of enclosing sub-circuits."""
+    ops = []
+    for _ in range(rng.choice([2, 3, 4, 5, 6])):
+        r = rng.random()
+        if allow_sub and nq >= 2 and r < 0.18:
+            import sympy
+            local = None
+            ents2, syms2 = entries, syms
+            if rng.random() < 0.5:                       # param_resolver of the sub-circuit: local symbol -> outer expression
+                e = gen_pexpr(rng, rng.choice([0, 1, 2]), syms)
+                if ref_number(entries, e) is not None:
+                    local = ('u%d' % depth, e)
+                    ents2, syms2 = entries + [local], syms + [local[0]]
+            inner = gen_circuit_spec(rng, syms2, ents2, nq, allow_sub=depth < 1 and rng.random() < 0.3, depth=depth + 1)
+            if local is not None and not any(local[0] in spec_symbols(s) for s in inner):
+                local = None
+            if len({i for s in inner for i in s['qs']}) < 2:      # keep sub-circuits on >= 2 qubits (the one-qubit unitary shortcut of
+                cz = _gates.G('CZPow', dict(e=1.0, s=0.0), (2, 2))  # CircuitOperation is another property's subject, DESIGN F4)
+                inner.append(dict(sym=cz, num=cz, qs=[0, 1], wrap=None, exprs=[]))
+            ops.append(dict(wrap=('sub', inner, rng.choice([1, 1, 2]), local), qs=list(range(nq)), exprs=[x for s in inner for x in s['exprs']]))
+            continue
+        k = rng.choice([1, 1, 2, 2, 3]) if nq >= 3 else rng.choice([1, 1, 2])
+        fam = rng.choice({1: ONE_Q, 2: TWO_Q, 3: THREE_Q}[k])
+        made = gen_param_gate(rng, fam, syms, entries, all_numeric_prob=0.25)
+        if made is None:
+            continue
+        gs, gn, exprs = made
+        qs = rng.sample(range(nq), k)
+        wrap = None
+        if r > 0.8:
+            wrap = 'tag'
+        elif r > 0.7 and k < nq:
+            wrap = 'ctrl'
+            qs = rng.sample(range(nq), k + 1)
+        ops.append(dict(sym=gs, num=gn, qs=qs, wrap=wrap, exprs=exprs))
+    return ops
+
+
+def spec_symbols(s):
+    import sympy
+    return {x.name for e in s['exprs'] if isinstance(e, sympy.Basic) for x in e.free_symbols}
+
+
+def build_ops(cirq, specs, which, q):
+    ops = []
+    for s in specs:
+        w = s['wrap']
+        if isinstance(w, tuple):
+            _, inner, reps, local = w
+            fc = cirq.FrozenCircuit(build_ops(cirq, inner, which, q))
+            if which == 'sym' and local is not None:
+                ops.append(cirq.CircuitOperation(fc, repetitions=reps, param_resolver={local[0]: local[1]}))
+            else:
+                ops.append(cirq.CircuitOperation(fc, repetitions=reps))
+            continue
+        g = build_gate(cirq, s[which])
+        qs = [q[i] for i in s['qs']]
+        if w == 'ctrl':
+            ops.append(g.on(*qs[1:]).controlled_by(qs[0]))
+        elif w == 'tag':
+            ops.append(g.on(*qs).with_tags('c10-tag'))
+        else:
+            ops.append(g.on(*qs))
+    return ops
+
+
+def spec_kinds(specs):
+    out = []
+    for s in specs:
+        w = s['wrap']
+        if isinstance(w, tuple):
+            out.append('sub(' + ','.join(spec_kinds(w[1])) + ')' + ('+params' if w[3] else ''))
+        else:
+            out.append(s['sym'].fam + ('' if w is None else ':' + w))
+    return out
+
+
+def make_circuit_case(ctx, cirq, rng, nq=None):
+    nq = nq or rng.choice([2, 2, 3])
+    syms = rng.sample(GEN_SYMS, rng.choice([1, 2, 3]))
+    entries = gen_full_resolver(rng, syms)
+    specs = gen_circuit_spec(rng, syms, entries, nq)
+    if not specs:
+        return None
+    q = cirq.LineQubit.range(nq)
+    try:
+        cs = cirq.Circuit(build_ops(cirq, specs, 'sym', q), tags=['circuit-tag'] if rng.random() < 0.3 else [])
+        cn = cirq.Circuit(build_ops(cirq, specs, 'num', q))
+        want = cn.unitary(qubit_order=q)
+    except Exception:
+        return None
+    return dict(nq=nq, syms=syms, entries=entries, specs=specs, q=q, sym=cs, num=cn, want=want)
+
+
+def first_bad_op(cirq, case, resolved):
+    """Smallest piece to blame: the first top-level operation whose resolved form differs from its numeric twin."""
+    q = case['q']
+    a, b = list(resolved.all_operations()), list(case['num'].all_operations())
+    kinds = spec_kinds(case['specs'])
+    for i, (x, y) in enumerate(zip(a, b)):
+        try:
+            if cirq.is_parameterized(x):
+                return i, 'unresolved'
+            ux, uy = cirq.Circuit(x).unitary(qubit_order=q), cirq.Circuit(y).unitary(qubit_order=q)
+            if not mats_close(ux, uy):
+                return i, 'differs'
+        except Exception as ex:
+            return i, 'raises:' + type(ex).__name__
+    return None, 'structure'
+
+
+def op_signature(case, resolved_ops_order, idx, what):
+    """Signature from the spec of the blamed top-level operation (moment placement keeps insertion order per qubit, so we
+    locate it by matching the i-th operation of the numeric twin)."""
+    return spec_kinds(case['specs'])
+
+
+def circuit_stream(ctx, cirq, n):
+    import sympy
+    rng = ctx.rng
+    dist = dict(with_sub=0, with_local_params=0, with_tags=0, with_ctrl=0, unparameterized_moment=0)
+    for _ in range(n):
+        case = make_circuit_case(ctx, cirq, rng)
+        if case is None:
+            continue
+        kinds = spec_kinds(case['specs'])
+        dist['with_sub'] += any(k.startswith('sub') for k in kinds)
+        dist['with_local_params'] += any('+params' in k for k in kinds)
+        dist['with_tags'] += any(':tag' in k for k in kinds)
+        dist['with_ctrl'] += any(':ctrl' in k for k in kinds)
+        dist['unparameterized_moment'] += any(not cirq.is_parameterized(m) for m in case['sym'])
+        exprs = [e for s in case['specs'] for e in s['exprs']]
+        nontriv = len(case['specs']) >= 2 and any(isinstance(e, sympy.Basic) and e.args for e in exprs)
+        ctx.count('circuit_unitary', [kinds, [sympy_srepr(e) if isinstance(e, sympy.Basic) else e for e in exprs], str(case['entries'])], nontriv,
+                  sample=dict(circuit=safe_str(case['sym']), resolver=str(dict(case['entries']))))
+        check_circuit_resolution(ctx, cirq, case, exprs)
+
+
+def circuit_replay_record(case):
+    return dict(kind='circuit', circuit=repr(case['sym']), numeric=repr(case['num']), entries=[[k, repr_value(x)] for k, x in case['entries']])
+
+
+def check_circuit_resolution(ctx, cirq, case, exprs):
+    res = cirq.ParamResolver(dict(case['entries']))
+    q = case['q']
+    bad, resolved = None, None
+    try:
+        resolved = cirq.resolve_parameters(case['sym'], res)
+        if cirq.is_parameterized(resolved) or cirq.parameter_names(resolved):
+            bad = 'still parameterized'
+        elif [len(m) for m in resolved] != [len(m) for m in case['num']]:
+            bad = 'moment structure changed'
+        elif not mats_close(resolved.unitary(qubit_order=q), case['want']):
+            bad = 'unitary differs from the numerically substituted circuit'
+    except Exception as ex:
+        bad = f'raised {type(ex).__name__}: {ex}'[:300]
+    if bad is None:
+        return resolved
+    ctx.mark_broken('differential:circuit', bad)
+    if classify_exprs(ctx, cirq, case['entries'], exprs):
+        return None
+    blame = 'circuit'
+    if resolved is not None:
+        kinds = spec_kinds(case['specs'])
+        # blame the first top-level spec whose own one-op circuit fails
+        for s, kind in zip(case['specs'], kinds):
+            one = dict(case, specs=[s])
+            try:
+                cs = cirq.Circuit(build_ops(cirq, [s], 'sym', q))
+                cn = cirq.Circuit(build_ops(cirq, [s], 'num', q))
+                r1 = cirq.resolve_parameters(cs, res)
+                ok = not cirq.is_parameterized(r1) and mats_close(r1.unitary(qubit_order=q), cn.unitary(qubit_order=q))
+            except Exception:
+                ok = False
+            if not ok:
+                blame = blame_kind(cirq, s, kind, res, q)
+                break
+    ctx.violation(f'resolve:circuit:{blame}', f'resolve_parameters of\n{safe_str(case["sym"])}\nwith {dict(case["entries"])!r}: {bad}', circuit_replay_record(case))
+    return None
+
+
+def blame_kind(cirq, s, kind, res, q):
+    """For a failing sub-circuit, name why its innermost failing operation is not resolved, so that the signature is stable:
+    sub:symbolic-constant (a sympy parameter without free symbols), sub:parameter_names:<family> (the gate does not report
+    its symbols), else sub:<family>."""
+    import sympy
+    w = s['wrap']
+    if isinstance(w, tuple):
+        for inner, k in zip(w[1], spec_kinds(w[1])):
+            try:
+                cs = cirq.Circuit(cirq.CircuitOperation(cirq.FrozenCircuit(build_ops(cirq, [inner], 'sym', q))))
+                r1 = cirq.resolve_parameters(cs, res)
+                ok = not cirq.is_parameterized(r1)
+                r1.unitary(qubit_order=q)
+            except Exception:
+                ok = False
+            if not ok:
+                if isinstance(inner['wrap'], tuple):
+                    return blame_kind(cirq, inner, k, res, q)
+                sym_exprs = [e for e in inner['exprs'] if isinstance(e, sympy.Basic)]
+                names_want = set().union(*[{x.name for x in e.free_symbols} for e in sym_exprs]) if sym_exprs else set()
+                if any(not e.free_symbols for e in sym_exprs):
+                    return 'sub:symbolic-constant'
+                if set(cirq.parameter_names(build_gate(cirq, inner['sym']))) != names_want:
+                    return 'sub:parameter_names:' + inner['sym'].fam
+                return 'sub:' + inner['sym'].fam
+        return 'sub'
+    return kind
+
+
+# ---- simulate_sweep / run_sweep ------------------------------------------------------------------------
+def gen_numeric_sweep(rng, syms):
+    """A sweep tree assigning numbers to exactly the given symbols (every point assigns all of them), length <= 8."""
+    leaves = []
+    for s in syms:
+        if rng.random() < 0.5:
+            leaves.append(('P', s, [round(rng.uniform(-1, 1), 3) for _ in range(rng.choice([1, 2, 3]))]))
+        else:
+            leaves.append(('L', s, round(rng.uniform(-1, 0), 2), round(rng.uniform(0, 1), 2), rng.choice([1, 2, 3])))
+    while len(leaves) > 1:
+        a, b = leaves.pop(), leaves.pop()
+        leaves.append((rng.choice(['X', 'Z', 'ZL']), [a, b]))
+    t = leaves[0]
+    if rng.random() < 0.2:
+        t = ('C', [t, reshuffle_values(rng, t)])
+    return t
+
+
+def simulate_stream(ctx, cirq, n):
+    import numpy as np, sympy
+    rng = ctx.rng
+    sim = cirq.Simulator(dtype=np.complex128)
+    for i in range(n):
+        nq = rng.choice([2, 3])
+        syms = rng.sample(GEN_SYMS, rng.choice([1, 2]))
+        direct = [(s, 0.0) for s in syms]                     # circuit expressions are built over the swept symbols themselves
+        specs = gen_circuit_spec(rng, syms, direct, nq)
+        q = cirq.LineQubit.range(nq)
+        prefix = [cirq.H(q[0]), cirq.CNOT(q[0], q[1])] if rng.random() < 0.6 else []      # an unparameterized prefix (reused across the sweep)
+        try:
+            cs = cirq.Circuit(prefix, build_ops(cirq, specs, 'sym', q))
+        except Exception:
+            continue
+        used = sorted(cirq.parameter_names(cs))
+        t = gen_numeric_sweep(rng, syms)
+        try:
+            sweep = build_sweep(cirq, t)
+        except ValueError:
+            continue
+        if len(sweep) == 0 or len(sweep) > 8:
+            continue
+        rep = dict(kind='simulate_sweep', circuit=repr(cs), tree=t)
+        try:
+            results = sim.simulate_sweep(cs, sweep, qubit_order=q)
+        except Exception as ex:
+            ctx.mark_broken('differential:simulate_sweep', f'raised {type(ex).__name__}: {ex}'[:300])
+            exprs = [e for s in specs for e in s['exprs']]
+            if not any(classify_exprs(ctx, cirq, dict_items(r), exprs) for r in sweep):
+                blame = circuit_blame(ctx, cirq, specs, q, sweep[0])
+                ctx.violation(f'simulate_sweep:{blame}', f'simulate_sweep of\n{safe_str(cs)}\nover {sweep!r} raised {type(ex).__name__}: {ex}'[:600], rep)
+            continue
+        ctx.count('simulate_sweep', [repr(cs), sweep_term(t)], len(sweep) >= 2 and bool(used), sample=dict(circuit=safe_str(cs), sweep=repr(sweep), points=len(sweep)))
+        if len(results) != len(sweep):
+            ctx.violation('simulate_sweep:length', f'simulate_sweep returned {len(results)} results for a sweep of length {len(sweep)}', rep)
+            continue
+        for j, (r, pr) in enumerate(zip(results, sweep)):
+            ents = dict_items(pr)
+            # reference: numbers substituted by sympy into every parameter, then simulated
+            try:
+                twin = twin_circuit(cirq, prefix, specs, q, ents)
+                want = sim.simulate(twin, qubit_order=q).final_state_vector
+                single = sim.simulate(cs, pr, qubit_order=q).final_state_vector
+            except Exception as ex:
+                ctx.mark_broken('differential:simulate', f'per-resolver simulate raised {type(ex).__name__}')
+                continue
+            if r.params != pr or not mats_close(r.final_state_vector, want, 1e-6) or not mats_close(single, want, 1e-6):
+                ctx.mark_broken('differential:simulate_sweep', f'point {j}')
+                ctx.violation('simulate_sweep:point', f'simulate_sweep of\n{safe_str(cs)}\nover {sweep!r}: result {j} (params {r.params}) differs from simulating the '
+                              f'circuit with {dict(ents)} substituted', dict(rep, point=j))
+                break
+
+
+def twin_circuit(cirq, prefix, specs, q, ents):
+    """Numeric twin of a spec list under a numeric assignment (re-derives every parameter by sympy substitution)."""
+    def num_spec(s, ents):
+        w = s['wrap']
+        if isinstance(w, tuple):
+            _, inner, reps, local = w
+            e2 = ents + [local] if local is not None else ents
+            return dict(s, wrap=('sub', [num_spec(x, e2) for x in inner], reps, None))
+        import sympy
+        assign = {}
+        for k in sym_params(s['sym'].fam, s['sym'].p):
+            v = s['sym'].p['angles'][k[1]] if isinstance(k, tuple) else s['sym'].p[k]
+            if isinstance(v, sympy.Basic):
+                x = ref_number(ents, v)
+                if x is None:
+                    raise ValueError('not a real number')
+                assign[k] = x
+        return dict(s, num=with_params(s['sym'], assign))
+    return cirq.Circuit(prefix, build_ops(cirq, [num_spec(s, list(ents)) for s in specs], 'num', q))
+
+
+def circuit_blame(ctx, cirq, specs, q, pr):
+    for s, kind in zip(specs, spec_kinds(specs)):
+        try:
+            r1 = cirq.resolve_parameters(cirq.Circuit(build_ops(cirq, [s], 'sym', q)), pr)
+            if cirq.is_parameterized(r1):
+                return blame_kind(cirq, s, kind, pr, q)
+            r1.unitary(qubit_order=q)
+        except Exception:
+            return blame_kind(cirq, s, kind, pr, q)
+    return 'circuit'
+
+
+def run_sweep_stream(ctx, cirq, n):
+    """run_sweep on circuits whose measurement outcomes are determined by the parameters (X**s with s in {0,1})."""
+    import numpy as np, sympy
+    rng = ctx.rng
+    for i in range(n):
+        nq = rng.choice([2, 3, 4])
+        q = cirq.LineQubit.range(nq)
+        syms = rng.sample(GEN_SYMS, rng.choice([1, 2, 3]))
+        flips = [rng.random() < 0.5 for _ in range(nq)]
+        prefix = [cirq.X(q[k]) for k in range(nq) if flips[k]]
+        forms = [lambda s: s, lambda s: 1 - s, lambda s: s * s, lambda s: s + 2, lambda s: 3 * s]
+        targets = [(rng.randrange(nq), rng.choice(syms), rng.randrange(len(forms))) for _ in range(rng.choice([1, 2, 3, 4]))]
+        ops = [cirq.X(q[k]) ** forms[f](sympy.Symbol(s)) for k, s, f in targets]
+        cs = cirq.Circuit(prefix, ops, cirq.measure(*q, key='m'))
+        t = ('X' if rng.random() < 0.5 else 'Z', [('P', s, [float(rng.randint(0, 1)) for _ in range(rng.choice([1, 2, 3]))]) for s in syms])
+        sweep = build_sweep(cirq, t)
+        if len(sweep) == 0:
+            continue
+        rep = dict(kind='run_sweep', circuit=repr(cs), tree=t)
+        ctx.count('run_sweep', [repr(cs), sweep_term(t)], len(sweep) >= 2, sample=dict(circuit=safe_str(cs), sweep=repr(sweep)))
+        try:
+            results = cirq.Simulator(seed=1).run_sweep(cs, sweep, repetitions=3)
+        except Exception as ex:
+            ctx.violation('run_sweep:raises', f'run_sweep of\n{safe_str(cs)}\nover {sweep!r} raised {type(ex).__name__}: {ex}'[:500], rep)
+            continue
+        ok = len(results) == len(sweep)
+        for r, pr in zip(results, sweep):
+            vals = dict(dict_items(pr))
+            bits = list(flips)
+            for k, s, f in targets:
+                if int(round(float(forms[f](vals[s])))) % 2 == 1:
+                    bits[k] = not bits[k]
+            got = r.measurements['m']
+            ok = ok and r.params == pr and got.shape == (3, nq) and all(list(map(bool, row)) == bits for row in got)
+        if not ok:
+            ctx.violation('run_sweep:point', f'run_sweep of\n{safe_str(cs)}\nover {sweep!r} does not give the outcomes its parameters determine', rep)
+
+
+# ---- flatten ------------------------------------------------------------------------------------------
+def flatten_stream(ctx, cirq, n):
+    """cirq.flatten / flatten_with_sweep / flatten_with_params: every operation of the flattened circuit, resolved with the
+    transformed assignment, has the value of the original operation resolved with the original assignment."""
+    import numpy as np, sympy
+    rng = ctx.rng
+    for i in range(n):
+        case = make_circuit_case(ctx, cirq, rng)
+        if case is None:
+            continue
+        cs, q = case['sym'], case['q']
+        kinds = spec_kinds(case['specs'])
+        rep = circuit_replay_record(case)
+        rep['kind'] = 'flatten'
+        exprs = [e for s in case['specs'] for e in s['exprs']]
+        ctx.count('flatten', [repr(cs)], any(isinstance(e, sympy.Basic) and e.args for e in exprs), sample=dict(circuit=safe_str(cs)))
+        try:
+            cf, em = cirq.flatten(cs)
+            params = em.transform_params(cirq.ParamResolver(dict(case['entries'])))
+            rf = cirq.resolve_parameters(cf, params)
+            bad = None
+            if cirq.is_parameterized(rf):
+                bad = f'flattened circuit resolved with transform_params is still parameterized by {sorted(cirq.parameter_names(rf))}'
+            elif not ops_match(cirq, rf, case['num'], q):
+                bad = 'an operation of the flattened circuit has a different value'
+            # numeric sweep over the symbols of the circuit
+            t = gen_numeric_sweep(rng, case['syms'])
+            sweep = build_sweep(cirq, t)
+            if bad is None and 0 < len(sweep) <= 6:
+                cf2, sw2 = cirq.flatten_with_sweep(cs, sweep)
+                if len(sw2) != len(sweep):
+                    bad = f'flatten_with_sweep changed the sweep length {len(sweep)} -> {len(sw2)}'
+                for pr, pr2 in zip(sweep, sw2):
+                    if bad:
+                        break
+                    a = cirq.resolve_parameters(cf2, pr2)
+                    twin = twin_circuit(cirq, [], case['specs'], q, dict_items(pr))
+                    if cirq.is_parameterized(a):
+                        bad = f'flatten_with_sweep: resolved flattened circuit is still parameterized by {sorted(cirq.parameter_names(a))}'
+                    elif not ops_match(cirq, a, twin, q):
+                        bad = f'flatten_with_sweep: an operation has a different value at {dict(dict_items(pr))}'
+        except Exception as ex:
+            bad = f'raised {type(ex).__name__}: {ex}'[:300]
+        if bad:
+            ctx.mark_broken('differential:flatten', bad)
+            # is plain resolution of this circuit already wrong?  then it is not a flattening problem
+            if check_circuit_resolution(ctx, cirq, case, exprs) is None:
+                continue
+            blame = 'sub' if any(k.startswith('sub') for k in kinds) and flatten_ok_without_subs(cirq, case) else 'circuit'
+            ctx.violation(f'flatten:{blame}', f'cirq.flatten of\n{safe_str(cs)}\n{bad}', rep)
+
+
+def flatten_ok_without_subs(cirq, case):
+    """True when the same check passes once the sub-circuit operations are dropped (so the sub-circuits are to blame)."""
+    specs = [s for s in case['specs'] if not isinstance(s['wrap'], tuple)]
+    q = case['q']
+    try:
+        cs = cirq.Circuit(build_ops(cirq, specs, 'sym', q))
+        cn = cirq.Circuit(build_ops(cirq, specs, 'num', q))
+        cf, em = cirq.flatten(cs)
+        rf = cirq.resolve_parameters(cf, em.transform_params(cirq.ParamResolver(dict(case['entries']))))
+        return not cirq.is_parameterized(rf) and ops_match(cirq, rf, cn, q)
+    except Exception:
+        return False
+
+
+def ops_match(cirq, a, b, q):
+    xs, ys = list(a.all_operations()), list(b.all_operations())
+    if len(xs) != len(ys):
+        return False
+    for x, y in zip(xs, ys):
+        if x.qubits != y.qubits or not mats_close(cirq.Circuit(x).unitary(qubit_order=q), cirq.Circuit(y).unitary(qubit_order=q)):
+            return False
+    return True
+
+
 def run(ctx):
     cirq = env.import_cirq()
     ctx.rule = ('sweeps: random trees over Unit/Points/Linspace/ListSweep leaves and Product/Zip/ZipLongest/Concat nodes, nesting <= 3, empty and '
@@ -871,6 +1609,12 @@ def run(ctx):
     quick = ctx.tier == 'quick'
     sweep_stream(ctx, cirq, 400 if quick else 4000)
     resolver_stream(ctx, cirq, 300 if quick else 3000)
+    float_stream(ctx, cirq, 150 if quick else 2000)
+    gate_stream(ctx, cirq, 120 if quick else 1500)
+    circuit_stream(ctx, cirq, 60 if quick else 800)
+    simulate_stream(ctx, cirq, 25 if quick else 300)
+    run_sweep_stream(ctx, cirq, 25 if quick else 300)
+    flatten_stream(ctx, cirq, 40 if quick else 500)
 
 
 def replay(ctx, data):
